@@ -234,14 +234,26 @@ theorem path_op_badf (pm : Nat) (host : HostOp → HostRes) (fds : FdTable) (cal
   unfold pathCall prologue
   rcases hfd with h | h <;> simp [h]
 
-/-- **path_filestat_follows_symlink.**  path_filestat_get examines the resolved path with `stat`, which FOLLOWS
-    a symbolic link in the last component (and fails with ENOENT on a dangling one) — for every value of the
-    `lookupFlags` argument: the regenerated function does not mention that parameter at all.  (With the
-    SYMLINK_FOLLOW flag set this is what WASI prescribes; without it WASI would want `lstat` — the pinned code
-    has a `TODO` there and follows always.) -/
-theorem path_filestat_follows_symlink (p : Bytes) :
-    Gen.WasiPath.filestatHostCall = "stat" ∧ Gen.WasiPath.filestatUsesLookupFlags = false ∧
-    PathCall.filestatGet.hostOp p = .stat p := ⟨rfl, rfl, rfl⟩
+/-- **path_filestat_follows_symlink.**  path_filestat_get FOLLOWS a symbolic link in the last component (examines
+    the resolved path with `stat`; ENOENT on a dangling link) **iff** the SYMLINK_FOLLOW bit (bit 0) of its
+    `lookupFlags` argument is set; otherwise it examines the link itself (`lstat`) — what a guest's `lstat()` asks
+    for.  The decision is the regenerated one (`Gen.WasiPath.filestatHostCallFor`, read off the preprocessed
+    source of this build).  A source that always calls `stat` (the pinned tree before de047f1) or always `lstat`
+    regenerates a constant function and this theorem fails. -/
+theorem path_filestat_follows_symlink (flags : Nat) (p : Bytes) :
+    Gen.WasiPath.lookupSymlinkFollow = 1 ∧
+    (PathCall.filestatGet flags).hostOp p = (if flags % 2 = 1 then HostOp.stat p else HostOp.lstat p) := by
+  refine ⟨rfl, ?_⟩
+  have h : flags &&& 1 = flags % 2 := Nat.and_one_is_mod flags
+  simp only [PathCall.hostOp, Gen.WasiPath.filestatHostCallFor, h]
+  rcases Nat.mod_two_eq_zero_or_one flags with h0 | h1
+  · simp [h0]
+  · simp [h1]
+
+/-- the two cases spelt out: with SYMLINK_FOLLOW the target is examined, without it the link -/
+theorem path_filestat_flag_cases (p : Bytes) :
+    (PathCall.filestatGet 1).hostOp p = .stat p ∧ (PathCall.filestatGet 0).hostOp p = .lstat p ∧
+    Gen.WasiPath.filestatUsesLookupFlags = true := ⟨rfl, rfl, rfl⟩
 
 /-- each call's host operation is the one the property names -/
 theorem path_op_kinds (p : Bytes) (n : Nat) :
@@ -249,7 +261,7 @@ theorem path_op_kinds (p : Bytes) (n : Nat) :
     PathCall.removeDirectory.hostOp p = .rmdir p ∧
     PathCall.unlinkFile.hostOp p = .unlink p ∧
     (PathCall.readlink n).hostOp p = .readlink p n ∧
-    PathCall.filestatGet.hostOp p = .stat p := by
+    (PathCall.filestatGet 1).hostOp p = .stat p := by
   refine ⟨rfl, rfl, rfl, rfl, rfl⟩
 
 
